@@ -174,12 +174,12 @@ REGISTRY = {
         "corr": "C09",
         "trusted": [
             "modelled: Zip (stashes, pairing, clearing at FlushAndRestart), merge (filter_map over the two-input Start), End towards several downstream blocks (split) and with the All strategy (broadcast)",
-            "not modelled as a machine: RoutingEnd (route): first-match choice per element; covered by whole-pipeline runs (C01) and graph wiring (C19)",
+            "modelled: RoutingEnd (route): first matching predicate per data element (none: dropped), control elements to every route, one batcher per route in route order, all batch modes with the clock as input (Model/Route.v); the wiring of the route blocks is the forward wiring of C19/C03",
         ],
         "assumptions": ["zip inputs are either all timestamped or all plain (mixing panics in the implementation: explicit model state)"],
-        "level_text": "Proof: zip pairs positionally and one-to-one with exactly min(|a|,|b|) pairs for every interleaving of its inputs; merge is the multiset union; broadcast reaches every replica; split delivers to every branch exactly the producer's sequence. Tied to the code by driving the real Start::multiple -> Zip / merge chains and the real End towards several blocks. Partial: route is covered by pipeline runs only.",
+        "level_text": "Proof: zip pairs positionally and one-to-one with exactly min(|a|,|b|) pairs for every interleaving of its inputs; merge is the multiset union; broadcast reaches every replica; split delivers to every branch exactly the producer's sequence; route delivers every data element to the first route whose predicate holds (to none if none holds, never to two) and every control element to all routes, each route receiving exactly its subsequence in order, complete at every round end, for every batch mode and clock. Tied to the code by driving the real Start::multiple -> Zip / merge chains and the real End towards several blocks, and the real RoutingEnd (hook route_chain) towards 1..4 routes with exact batch sequences. ",
         "level_note": "Trusted: Coq kernel/vm_compute, hand-written models (checked by correspondence), harness. No axioms.",
-        "explanation": "C09_* proved; zip/merge/End driven directly.",
+        "explanation": "C09_* proved; zip/merge/End/RoutingEnd driven directly.",
     },
     "C05": {
         "corr": "C05",
